@@ -108,6 +108,8 @@ pub struct TransformerContext {
     completed_ids: HashSet<String>,
     /// ids which are written out literally in the document
     literal_ids: HashSet<String>,
+    /// Where each computed id (one holding a variable or an expression) was written
+    computed_id_sites: HashMap<String, String>,
     /// number of elements of the output whose content is being processed
     open_output_elements: u32,
     /// Stack of elements which have been started but not yet ended
@@ -146,6 +148,7 @@ impl Default for TransformerContext {
             pending_ids: HashSet::new(),
             completed_ids: HashSet::new(),
             literal_ids: HashSet::new(),
+            computed_id_sites: HashMap::new(),
             open_output_elements: 0,
             element_stack: Vec::new(),
             prev_element: None,
@@ -633,10 +636,18 @@ impl TransformerContext {
         let id = el.get_attr("id")?;
         // An id written out in the document (rather than computed) is one of a fixed,
         // finite set; see `progress()`.
-        if !(id.contains(crate::constants::VAR_PREFIX) || id.contains("{{")) {
+        let computed = id.contains(crate::constants::VAR_PREFIX) || id.contains("{{");
+        if !computed {
             self.literal_ids.insert(id.clone());
         }
+        let written = id.clone();
         let id = eval_attr(&id, self).unwrap_or(id);
+        if computed {
+            // ... and so is the place where a computed id is written, whatever values
+            // it takes there
+            self.computed_id_sites
+                .insert(id.clone(), format!("{:?} {written}", el.order_index));
+        }
         // The element keeps the evaluated id, so that an expression in it is
         // evaluated once rather than again with the element's other attributes.
         el.set_attr("id", &id);
@@ -650,13 +661,15 @@ impl TransformerContext {
         self.pending_ids.remove(id);
         if self.literal_ids.contains(id) {
             self.completed_ids.insert(id.to_owned());
+        } else if let Some(site) = self.computed_id_sites.get(id) {
+            self.completed_ids.insert(site.clone());
         }
     }
 
     /// A measure of progress which only ever grows, and not without bound: the number
     /// of distinct elements, among those whose id is written out in the document,
-    /// evaluated successfully so far at any nesting level. (Computed ids don't count:
-    /// a retried element may produce a new one at every attempt.)
+    /// evaluated successfully so far at any nesting level. (A computed id counts once for
+    /// the place it is written at: a retried element may produce a new one at every attempt.)
     pub fn progress(&self) -> usize {
         self.completed_ids.len()
     }
